@@ -16,7 +16,7 @@ import (
 
 func init() {
 	prop("C17",
-		"(a) the SST record writer and both readers (point lookup, prefix scan) agree on the record layout per record shape; the footer writer and loader agree (meta blocks in the same order, 12-byte tail holding the meta offset), and the bloom / search-index encoders agree with their decoders; (b) bloom Add and MightHave probe the same bit positions; (c) an entry's index offset and bloom bits are recorded before the writes that advance the table size, and first / last keys are recorded; (d) the WAL codec and truncation rules (C08.c, C08.d, C08.e); (e) the search index samples entry 0 and every 16th entry and Search brackets the key between the sampled offsets; (f) every fields.* write / Read / Skip triple agrees on width and byte order; range predicates (C07.i); (g) the run splitter's buffer protocol: flushChunk only after a cut() since the previous flushChunk on every path, cut records count and size together, flushChunk returns the prefix / keeps the suffix / subtracts the recorded size, every pulled entry is buffered and the end of input writes the whole buffer; (h) a table's file number is reserved by one atomic Add on the writer's counter (flush and compaction share the writer).",
+		"(a) the SST record writer and both readers (point lookup, prefix scan) agree on the record layout per record shape; the footer writer and loader agree (meta blocks in the same order, 12-byte tail holding the meta offset), and the bloom / search-index encoders agree with their decoders; (b) bloom Add and MightHave probe the same bit positions; (c) an entry's index offset and bloom bits are recorded before the writes that advance the table size, and first / last keys are recorded; (d) the WAL codec and truncation rules (C08.c, C08.d, C08.e); (e) the search index samples entry 0 and every 16th entry and Search brackets the key between the sampled offsets; (f) every fields.* write / Read / Skip triple agrees on width and byte order; range predicates (C07.i); (g) the run splitter's buffer protocol: flushChunk only after a cut() since the previous flushChunk on every path, cut records count and size together, flushChunk returns the prefix / keeps the suffix / subtracts the recorded size, every pulled entry is buffered and the end of input writes the whole buffer; (h) a table's file number is reserved by one atomic Add on the writer's counter (flush and compaction share the writer); (i) byte strings travel through the JSON checkpoints file as []byte, never as strings.",
 		"the sizes at which the splitter cuts (target size / 1.5x look-ahead, numeric) and disjointness of split tables over all inputs; bloom false-positive behaviour; equality of contents over all inputs.")
 
 	register(&Obligation{ID: "C17.a", Props: []string{"C17", "C07", "C03", "C08"}, Template: "codec-agreement",
